@@ -32,11 +32,13 @@ EXPLANATION = (
     'count >= 2 for ~, first-non-zero search over three components with default 0 for ^), sticky pre-release flag, and the table of the '
     'returned matcher (gate, conjunction, operand order, empty requirement).  R1c: next_ver / list constructor / has_prerelease by '
     'expression shape (copy of the first three components, +1 at the index, zeroing loop over range(index+1, 3), slot 3).  R2a: one '
-    'comparison core with symmetric ranking keys [kind: int below str, value, length].  R2b: tokenizer regex-language facts and the '
+    'comparison core with symmetric ranking keys [kind: int below str, value, length].  R2b: tokenizer regex-language facts (digit branch = [0-9]+, '
+    'identifier branch = exactly [A-Za-z-][0-9A-Za-z-]* by two automaton inclusions, build branch anchored on +) and the '
     'decision table of the tokenizer loop body: int() conversion of digit tokens, slot 3 = -1 after padding, build branch breaks, and '
     '- decided with the product automaton - an identifier whose language (after the section-marker strip the row performs) meets [0-9]+ '
     'must be appended through an isdigit()-guarded int().  R3a: _eval_cfg has one arm per IR class _parse can build, each returning the '
-    'denoting construct (in / get == / not / any / all).  R3b: lexer decision table (keyword and delimiter tokens; inside a string literal '
+    'denoting construct (in / get == / not / any / all).  R3b: lexer decision table over character classes {blank, other white space, each '
+    'punctuation, quote, other} x word classes (keyword and delimiter tokens; every white space character separates; inside a string literal '
     'only the closing quote acts), parser token -> class map, and the composition keyword -> token -> class -> builtin.  R4a: only '
     'MesonException is raised, StopIteration of _parse is converted in parse (CFG exception edge), leftover tokens are rejected, every token '
     'read is checked before the parse continues (CFG dominance), token payload guards, eval_cfg wrapper shape.  R4b: every enumerated path of '
@@ -807,6 +809,35 @@ def split_alternatives(pattern: str) -> T.List[str]:
     return out
 
 
+def _not_included(p_small: str, p_big: str, max_len: int = 6) -> T.Optional[str]:
+    """A string fully matched by p_small but not by p_big, or None when L(p_small) is included in L(p_big)
+    (both automata of sa.rx are simulated deterministically over the shared representative alphabet; sa.rx itself
+    offers intersection only)."""
+    n1, n2 = rx.build(p_small), rx.build(p_big)
+    alpha = rx.alphabet(p_small, p_big)
+    start = (n1.closure([n1.start]), n2.closure([n2.start]))
+    seen = {start: ''}
+    todo = [start]
+    while todo:
+        nxt = []
+        for st in todo:
+            w = seen[st]
+            if n1.accept in st[0] and n2.accept not in st[1]:
+                return w
+            if len(w) >= max_len:
+                continue
+            for c in alpha:
+                a = n1.step(st[0], c)
+                if not a:
+                    continue
+                b = n2.step(st[1], c)
+                if (a, b) not in seen:
+                    seen[(a, b)] = w + c
+                    nxt.append((a, b))
+        todo = nxt
+    return None
+
+
 def _tok_language(ctx: RuleCtx, mod: Module) -> T.Dict[str, T.Any]:
     """Regex-language facts of the tokenizer: which alternative feeds which group."""
     r = fold_expr(ctx.repo, mod, mod.assign_value('_SEMVER_TOK_RE'))
@@ -827,6 +858,16 @@ def _tok_language(ctx: RuleCtx, mod: Module) -> T.Dict[str, T.Any]:
     w = rx.intersects(digits, ANY + r'[^0-9]' + ANY)
     ctx.require(w is None and not rx.full_matches(digits, '') and rx.full_matches(digits, '10'), 'digit branch: language is [0-9]+ (int(group(1)) is total)', mod, '<module>',
                 '_SEMVER_TOK_RE digit branch', f'the first alternative {digits!r} also matches {w!r}: int(group(1)) is not total / the branch is not the numeric-identifier branch')
+    # the identifier alternative is exactly the SemVer identifier class with a non-digit first character (SemVer 2.0.0 section 9:
+    # identifiers comprise only [0-9A-Za-z-]); both inclusions are decided on the product of the determinised automata
+    REF_IDENT = r'([A-Za-z-][0-9A-Za-z-]*)'
+    extra = _not_included(ident, REF_IDENT)
+    lost = _not_included(REF_IDENT, ident)
+    ctx.require(extra is None and lost is None, 'identifier branch: language is exactly [A-Za-z-][0-9A-Za-z-]*', mod, '<module>', '_SEMVER_TOK_RE identifier branch',
+                f'the identifier alternative {ident!r} is not the SemVer identifier class: ' +
+                (f'it matches {extra!r}, which is not an identifier; ' if extra is not None else '') +
+                (f'it does not match the whole identifier {lost!r} (an inner "-" or digit then splits one pre-release identifier into two, '
+                 f'e.g. 1.0.0-rc-1 is read as rc, -1)' if lost is not None else ''))
     w = rx.intersects(digits, ident)
     ctx.require(w is None, 'digit and identifier branches are disjoint', mod, '<module>', '_SEMVER_TOK_RE branches', f'{w!r} is matched by both the digit and the identifier alternative')
     w = rx.intersects(build, r'[^+]' + ANY)
@@ -1193,6 +1234,7 @@ def r3_eval(ctx: RuleCtx) -> None:
 
 
 KEYWORDS = {'all': 'ALL', 'any': 'ANY', 'not': 'NOT'}
+WHITESPACE = ' \t\n\r\x0b\x0c'     # the class str.isspace() accepts (ASCII part); every member must separate tokens
 DELIMS = {'(': 'LPAREN', ')': 'RPAREN', ',': 'COMMA', '=': 'EQUAL'}
 TOKEN_CLASS = {'ALL': 'All', 'ANY': 'Any', 'NOT': 'Not'}
 
@@ -1226,7 +1268,7 @@ def _lexer_table(ctx: RuleCtx, mod: Module) -> T.Dict[str, str]:
 
     def atom_pred(a: Atom) -> T.Callable[[str, str, bool], bool]:
         if a == Atom('truth', (f'{S}.isspace()',)):
-            return lambda s, w, f: s == ' '
+            return lambda s, w, f: s in WHITESPACE
         if a == Atom('truth', (F,)):
             return lambda s, w, f: f
         if a == Atom('truth', (W,)):
@@ -1256,7 +1298,8 @@ def _lexer_table(ctx: RuleCtx, mod: Module) -> T.Dict[str, str]:
     kw_tokens: T.Dict[str, str] = {}
     bad_string: T.Optional[T.Tuple[tables.Row, str]] = None
     n = 0
-    for s_cls, w_cls, in_str in itertools.product([' ', '(', ')', ',', '=', '"', 'x'], ['any', 'all', 'not', 'w', ''], [False, True]):
+    # character classes: blank, the other white space characters (Rust/Cargo: any white space separates tokens), each punctuation, quote, other
+    for s_cls, w_cls, in_str in itertools.product([' ', '\t', '\n', '(', ')', ',', '=', '"', 'x'], ['any', 'all', 'not', 'w', ''], [False, True]):
         world = {a: p(s_cls, w_cls, in_str) for a, p in preds.items()}
         rows = tab.fire(world)
         if len(rows) != 1:
@@ -1299,7 +1342,7 @@ def _lexer_table(ctx: RuleCtx, mod: Module) -> T.Dict[str, str]:
                     want_y[0] = got_y[0]
         ctx.require(got_y == want_y and writes == want_w, f'lexer: {desc}: tokens {want_y}, state {want_w}', mod, 'lexer', f'lexer row: {desc}',
                     f'{desc}: the row yields {got_y} and writes {writes}; expected tokens {["<keyword token>" if y is None else y for y in want_y]} and writes {want_w}', node)
-    ctx.floor('lexer worlds', n, 70)
+    ctx.floor('lexer worlds', n, 90)
     if bad_string is None:
         ctx.ok('lexer: inside a string literal only the closing quote yields a token or moves the start index')
     else:
